@@ -171,3 +171,33 @@ package kzg
 //@ ensures[input] forall(j, 0, len(points), points[j] == old(points[j]))
 //@ modifies nothing
 //@ end
+
+// NewSRS (the structured reference string the property speaks about). For a trapdoor other than the documented
+// benchmark value -1: the scalars handed to the batch scalar multiplication of the G1 generator are a, a^2, ...,
+// a^(size-1) with a the field element of the trapdoor (twseq(a, a, j) = a * a^j), the second G2 element is the G2
+// generator multiplied by the same trapdoor, and sizes below 2 are refused. Group operations, the generators and the
+// line precomputation are opaque calls captured at the call site; what the batch multiplication computes is C03/C04.
+//@ func NewSRS
+//@ layer ring fr.Element opaque bls12377.G1Affine bls12377.G2Affine bigint big.Int
+//@ option opaque-calls
+//@ option nomerge
+//@ smt (declare-fun twseq (Int Int Int) Int)
+//@ smt (assert (forall ((t Int) (x Int) (n Int)) (! (=> (<= n 0) (= (twseq t x n) t)) :pattern ((twseq t x n)))))
+//@ smt (assert (forall ((t Int) (x Int) (n Int)) (! (=> (> n 0) (= (twseq t x n) (* x (twseq t x (- n 1))))) :pattern ((twseq t x n)))))
+//@ smt-fun twseq Int
+//@ requires size <= 1099511627776
+//@ ghost a = 0
+//@ ghost scalars = false
+//@ ghost g2trapdoor = false
+//@ cut after call SetBigInt #1
+//@ + ghost a = *callarg0
+//@ loop 1
+//@ + invariant[powers] 1 <= i && i <= len(alphas) && len(alphas) == size - 1 && alpha == a && forall(j, 0, i, alphas[j] == ufint_twseq(a, a, j))
+//@ cut before call BatchScalarMultiplicationG1 #1
+//@ + ghost scalars = len(callarg1) == size - 1 && forall(j, 0, size - 1, callarg1[j] == ufint_twseq(a, a, j))
+//@ cut before call ScalarMultiplication #*
+//@ + ghost g2trapdoor = g2trapdoor || same(callarg2, bAlpha)
+//@ ensures[too-small] size < 2 ==> isnil(result0) && result1 == ErrMinSRSSize
+//@ ensures[powers-of-the-trapdoor] isnil(result1) && *bAlpha != -1 ==> scalars && g2trapdoor && len(result0.Pk.G1) == size
+//@ modifies nothing
+//@ end
